@@ -31,7 +31,6 @@ var reviewedPanics = reviewed{
 	"P1|(*pkg/ip.NetSet).getNetMaps|panic":                                                                "net.IP values reaching NetSet come from net.ParseIP/ParseCIDR (4 or 16 bytes); nil is rejected by isTrustedIP before Has",
 	"P1|(pkg/ip.ipNetMap).has|panic":                                                                      "maps are selected per address family by getNetMaps, so mask and address lengths agree",
 	"P4|(*pkg/encryption.cfbCipher).Encrypt|ciphertext[:aes.BlockSize]":                                   "ciphertext was made with length aes.BlockSize+len(value)",
-	"P4|(pkg/ip.xForwardedForClientIPParser).GetRealClientIP|ipStr[:commaIndex]":                          "commaIndex is strings.IndexRune's result and != -1",
 	"P4|pkg/requests/util.GetRequestPath|uri[:idx]":                                                       "idx is strings.Index's result and != -1",
 	"P4|pkg/sessions/cookie.splitCookie|valueBytes[:valueSize]":                                           "valueSize = 4000 - (name+attribute overhead); the validated name is < 256 bytes and attributes are short configuration strings",
 	"P4|pkg/sessions/cookie.splitCookie|valueBytes[valueSize:]":                                           "same bound as valueBytes[:valueSize]",
@@ -88,12 +87,96 @@ func (c *Ctx) panicAuto(rule string) func(panicSite) (string, bool) {
 			if c.sliceGuardedEverywhere(s) {
 				return "dominated on every path by a length test for the same bound", true
 			}
+			if c.indexResultGuardedEverywhere(s) {
+				return "sliced at the result of strings.Index*(same string, ·) on paths where that result was found not to be -1", true
+			}
 			if c.lastElemGuardedEverywhere(s) {
 				return "x[len(x)-1] reached only on paths where len(x) is known positive", true
 			}
 		}
 		return "", false
 	}
+}
+
+// indexResultGuardedEverywhere: every slice at the site is x[:i], x[i:] or x[i+k:] (small constant k) with
+// i = strings.Index/IndexRune/IndexByte/LastIndex*(x, ·) of the same string, on paths that assumed i != -1 (or i >= 0).
+func (c *Ctx) indexResultGuardedEverywhere(s panicSite) bool {
+	var targets []*ssa.Slice
+	for _, b := range s.Fn.Blocks {
+		for _, in := range b.Instrs {
+			if sl, ok := in.(*ssa.Slice); ok && c.P.Pos(sl.Pos()) == c.P.Pos(s.Pos) {
+				targets = append(targets, sl)
+			}
+		}
+	}
+	if len(targets) == 0 {
+		return false
+	}
+	all, seen := true, false
+	w := walk.New(c.P, s.Fn)
+	w.MaxPaths = 20000
+	w.Run(func(p *walk.Path) {
+		for i, st := range p.Steps {
+			sl, ok := st.In.(*ssa.Slice)
+			if !ok {
+				continue
+			}
+			hit := false
+			for _, t := range targets {
+				if t == sl {
+					hit = true
+				}
+			}
+			if !hit {
+				continue
+			}
+			seen = true
+			base := p.Resolve(p.StepOp(sl.X, st))
+			for _, bound := range []ssa.Value{sl.Low, sl.High} {
+				if bound == nil {
+					continue
+				}
+				bv := p.Resolve(p.StepOp(bound, st))
+				if add, ok := bv.V.(*ssa.BinOp); ok && add.Op == token.ADD {
+					if k, isK := ConstInt(add.Y); isK && k >= 0 && k <= 4 {
+						bv = p.Resolve(p.Op(add.X, bv))
+					}
+				}
+				call, ok := bv.V.(*ssa.Call)
+				okIdx := ok && call.Call.StaticCallee() != nil && call.Call.StaticCallee().Pkg != nil && call.Call.StaticCallee().Pkg.Pkg.Path() == "strings" && strings.Contains(call.Call.StaticCallee().Name(), "Index")
+				if okIdx && p.Key(p.Op(call.Call.Args[0], bv)) != p.Key(base) {
+					okIdx = false
+				}
+				found := false
+				if okIdx {
+					for _, a := range p.Atoms(i) {
+						b, ok := a.DV.V.(*ssa.BinOp)
+						if !ok || a.IsNil {
+							continue
+						}
+						x, y := p.Resolve(p.Op(b.X, a.DV)), p.Resolve(p.Op(b.Y, a.DV))
+						isB := func(v walk.DV) bool { return p.Key(v) == p.Key(bv) }
+						cy, yc := ConstInt(y.V)
+						cx, xc := ConstInt(x.V)
+						switch {
+						case (b.Op == token.EQL || b.Op == token.NEQ) && !a.Val && ((isB(x) && yc && cy == -1) || (isB(y) && xc && cx == -1)):
+							found = true
+						case b.Op == token.GEQ && a.Val && isB(x) && yc && cy >= 0:
+							found = true
+						case b.Op == token.GTR && a.Val && isB(x) && yc && cy >= -1:
+							found = true
+						case b.Op == token.LSS && !a.Val && isB(x) && yc && cy <= 0:
+							found = true
+						}
+					}
+				}
+				if !found {
+					all = false
+				}
+			}
+		}
+	})
+	return seen && all && !w.Overflow
 }
 
 // lastElemGuardedEverywhere: every index instruction at the site is x[len(x)-1] and every path to it
